@@ -303,6 +303,14 @@ def run_problem(prob, method, x0mode, rec, rng, seams):
         return
     rec.cmp(1, "end-to-end")
     if sol.status.value != "optimal":
+        if used_method == "BFGS" and "precision loss" in (sol.message or "") and sol.values:
+            # BFGS is not one of the methods the statement quantifies over (auto, SLSQP, trust-constr, L-BFGS-B); its wiring is checked
+            # like the others', but its line search ending "precision loss" AT the optimum is decided by the last bits of the function
+            # values (badly scaled exponential objectives): only a point away from the optimum is a finding
+            fo_ = rf(np.array([sol.values[nm] for nm in names]))
+            if fo_ - fstar <= 10 * abs(gap_raw) + 1e-6 * (1 + abs(fstar)):
+                rec.noncomp["bfgs-line-search-precision-loss-at-the-optimum"] += 1
+                return
         bad("end-to-end:raw-scipy-converges-but-optyx-is-" + sol.status.value, message=sol.message[:150], raw_message=str(raw.message)[:100])
         return
     xo = np.array([sol.values[nm] for nm in names])
